@@ -20,8 +20,8 @@ again or drop it; the oracle allows an "all failed" error once every DISTINCT ad
 failed, requires it once additionally nothing is in flight, and never allows more attempts than listings.  After every op, at quiescence:
   * the connector future completed at most once (done-callback counter; no exception logged from a callback);
   * first success delivered while unresolved => the future holds exactly (af, addr, that stream), at once;
-  * an error result is TimeoutError only at/after the connect deadline, otherwise it is the exception of the most
-    recent failed attempt and every address has been attempted and has failed; when the deadline has passed, or all
+  * an error result is TimeoutError only at/after the connect deadline, otherwise it is one of the exceptions the failed
+    attempts really produced (which one is unspecified) and every address has been attempted and has failed; when the deadline has passed, or all
     addresses have failed, the future is resolved;
   * <= 1 attempt in flight per family; no attempt is started after resolution;
   * while unresolved something can still resolve it: an attempt is in flight, or the happy-eyeballs timer is pending
@@ -40,6 +40,12 @@ Findings (known_findings.d/C10.json, findings_inbox/C10-*.md; since repaired in 
 socket()/bind() raising inside the connector's callback leaves connect() pending forever; the `except OSError` branch
 of _create_stream returns an unbound `stream` (UnboundLocalError, socket leaked).  Both disappear with the proposed
 patches.  The _Connector state machine itself held on everything explored.
+
+Corrections (oracle over-reach): the clause `C10.not_the_last_error` demanded that the error reported once every address has
+failed be the LAST attempt's; neither the statement ("completes ... with an error once every address has failed") nor any
+docstring says which one, and a property-preserving change that reports the first (most preferred) address's error tripped it.
+It is now `C10.error_not_from_an_attempt`: any exception an attempt actually produced is fine (generic OSError if none was
+recorded); TimeoutError remains tied to the connect deadline.
 
 Harness corrections while building: OSError(ETIMEDOUT) *is* builtin TimeoutError (== tornado.gen.TimeoutError), so the
 drain uses ECONNRESET; GC-time "Future exception was never retrieved" records are timing dependent and are filtered.
@@ -64,8 +70,7 @@ Sensitivity (quick tier, seed 1, scratch copies, one mutant of tornado/tcpclient
      (minimal: [v4 a, v4 b(raises), v4 c, v6 d]; advance 0.3; batch(fail a, ok d): d resolves in the same iteration, then the
      deferred retry starts c).  Found by independent mutation testing; earlier versions had raising creation faults only
      in the tcpclient part and could not complete two attempts in one loop iteration -> "raise" address mode, batch op and
-     the connector_enum_raise sweep were added.  (last_error is now tracked by a done-callback registered before the
-     connector's own, i.e. in the order the connector processes failures.)
+     the connector_enum_raise sweep were added.
   M11 try_connect: connect() call unguarded again (pre-484fc54 behaviour)      -> caught
 """
 import asyncio
@@ -194,20 +199,10 @@ def run_connector(ctx, case):
             if sum(1 for a in attempts if a.name == addr) >= multiplicity.get(addr, 0):
                 fail("C10.address_attempted_more_often_than_listed", {"addr": addr})
             attempts.append(s)
-
-            def settled(f, s=s):
-                # registered before the connector's own callback, so it runs immediately before on_connect_done for this
-                # attempt: failures are ordered exactly as the connector processes them (a synchronous failure of the
-                # next address happens inside that processing, i.e. later)
-                if s.state == "failed" and not holder["conn"].future.done():
-                    holder["last_error"] = s.error
-
-            s.future.add_done_callback(settled)
             if sync_fail[addr]:
                 s.state = "failed"
                 s.error = OSError(errno.ENETUNREACH, "sync failure " + addr)
                 s.future.set_exception(s.error)
-                holder["last_error"] = s.error
                 info["labels"].add("sync_failure")
                 if sync_fail[addr] == "raise":
                     s.future.exception()  # nobody else will look at this future
@@ -283,8 +278,12 @@ def run_connector(ctx, case):
                         if not all_failed:
                             fail("C10.error_before_all_addresses_failed",
                                  {"step": step, "error": repr(exc), "attempts": [repr(a) for a in attempts], "addrs": case["addrs"]})
-                        elif exc is not holder.get("last_error"):
-                            fail("C10.not_the_last_error", {"step": step, "error": repr(exc), "last": repr(holder.get("last_error"))})
+                        elif not any(exc is a.error for a in attempts if a.error is not None):
+                            # WHICH of the attempts' errors is reported is not specified (first, last, ...): it only has
+                            # to be one that an attempt really produced - or a generic OSError if none was recorded
+                            produced = [a.error for a in attempts if a.error is not None]
+                            if produced or not isinstance(exc, OSError):
+                                fail("C10.error_not_from_an_attempt", {"step": step, "error": repr(exc), "produced": [repr(e) for e in produced]})
                         info["labels"].add("resolved_all_failed")
             else:
                 if state["success"] is not None:
